@@ -203,8 +203,19 @@ def check(run: Run) -> None:
             run.violation("R10.6", f.module, f.qualname, "envelope helper returns", "an error-envelope helper does not hard-code validation_status UNVALIDATED (and valid False)", envelopes=[e.describe() for e in envs])
 
     # CLI commands: status is a local string
+    def printed_status(fn: ast.AST) -> str | None:
+        # the local the command prints as `validation_status: {<local>}`
+        for n in walk_no_nested(fn):
+            if isinstance(n, ast.JoinedStr):
+                for a, b in zip(n.values, n.values[1:]):
+                    if isinstance(a, ast.Constant) and str(a.value).rstrip().endswith("validation_status:") and isinstance(b, ast.FormattedValue) and isinstance(b.value, ast.Name):
+                        return b.value.id
+        return None
+
+    from ..source import normalise_locals
+
     for modname, qual in CLI:
-        fi = run.project.mod(modname).func(qual)
+        fi = normalise_locals(run.project.mod(modname).func(qual), [], finders=[("validation_status", printed_status)])
         it = Interp(fi, lambda c: None)
         it.run()
         n = 0
